@@ -19,7 +19,7 @@ RULE = ('Hypothesis cases: n in 1..5 distinct keys, m in 0..n (+ a few m > n), a
         'truth (every item well-formed, permitted, valid under a listed key, signers pairwise distinct), never true '
         'otherwise, verdict invariant under every order. non-trivial = the multiset contains a duplicate / flag '
         'variant / outsider / corruption, or m = n, or a non-identity order; distinct by (n, m, item kinds, orders).'
-        ' Also witnesses shorter than the quorum: the instruction asks for 1-2 more signatures than supplied (nothing or foreign items below them): never true.')
+        ' Also witnesses shorter than the quorum: the instruction asks for 1-2 more signatures than supplied (nothing or foreign items below them): never true. Every accepted quorum that carries a non-zero flag is run again, in the same process, with one carried flag bit removed from the permitted set: never true (no verdict is remembered across instructions).')
 ASSUMPTIONS = ['keys are distinct, so a signature is valid under at most one listed key (greedy matching is exact)',
                'a lock that lists the same key twice is outside the quantifier (n distinct keys): there one signer can confirm two slots with '
                'two encodings of one signature (64 bytes / 64 bytes + flag byte 00)',
@@ -161,6 +161,17 @@ def evaluate(case):
         fails.append(('multisig/VERIFY-form-raises-for-valid-quorum', '%r' % (gotv,)))
     if want == 'not-true' and gotv[0] == 'ok':
         fails.append(('multisig/VERIFY-form-no-error-for-invalid', '%r' % (gotv,)))
+    # the same accepted items again under a lock that no longer permits a flag one of them carries: not true (a verdict
+    # must not be remembered across instructions with different permitted flags)
+    used = 0
+    for t in truth:
+        used |= (t[4] or 0) if len(t) > 4 and isinstance(t[4], int) else 0
+    if want == 'true' and not short and used:
+        bit = used & -used
+        got2 = run_bare(keys, sigs, allowed & ~bit & 0xff, m, n, fields)
+        info['requalified'] = True
+        if got2[0] == 'ok' and got2[1][-1:] == [b'\xff']:
+            fails.append(('multisig/true-although-a-carried-flag-is-not-permitted-any-more', 'flag bit %02x removed from allowed %02x' % (bit, allowed)))
     # m greater than the number of supplied signatures is not generated; quorum through the builder
     if case.get('builder') and all(t[0] in ('valid', 'outsider', 'flagvar', 'dup', 'nonperm') for t in truth) and m <= n:
         try:
@@ -242,6 +253,8 @@ def task_main(ctx):
         ctx.case((c['n'], c['items'], c['allowed'], sorted(c['fields']), c['order_seed']), nt)
         ctx.count('expect:' + info['want'])
         ctx.count('m=%d' % info['m'])
+        if info.get('requalified'):
+            ctx.count('accepted quorum re-run with a carried flag no longer permitted')
         if info['short']:
             ctx.count('short-witness:%s' % ('nothing-below' if not c['below'] else 'items-below'))
         for k in kinds:
